@@ -197,6 +197,7 @@ static int exec_op(int k, op_t *o, long *ret){
         U("U_TryJoinRet", 5, (long)k, (long)o->a, (long)rc, (long)(rc == 0 ? (long)r : 0), (long)(rc == 0 ? cell[o->a] : 0));
         if (rc == 0) break;
         att++;
+        myth_verif_spin(98);     /* a retry loop: "I cannot progress until somebody else moves" (priority strategies must not starve the others) */
         U("U_YieldCall", 2, (long)k, (long)myth_yield_option_local_first);
         myth_yield_ex(myth_yield_option_local_first);
         U("U_YieldRet", 1, (long)k);
@@ -213,7 +214,7 @@ static int exec_op(int k, op_t *o, long *ret){
       lock_(k, o->a); critical(k, o->a); if (o->b) yield_(k, o->b - 1); unlock_(k, o->a); break;
     case OP_TL: /* trylock; on success critical section and unlock, otherwise (c != 0) retry after a yield */
       for (;;){ if (trylock_(k, o->a) == 0){ critical(k, o->a); if (o->b) yield_(k, o->b - 1); unlock_(k, o->a); break; }
-        if (!o->c) break; yield_(k, myth_yield_option_local_first); }
+        if (!o->c) break; myth_verif_spin(98); yield_(k, myth_yield_option_local_first); }
       break;
     case OP_CWAIT: /* a = buffer: consume one item */
       { int b_ = o->a; lock_(k, b_);
@@ -248,7 +249,7 @@ static int exec_op(int k, op_t *o, long *ret){
                       parties: word bits 1 = full, 2 = somebody waits on the variable, 4 = a signal is in progress;
                       at most one waiter at a time, and nobody announces itself before the previous signal has returned) */
       { int u = o->a; for (;;){ long old = ucw[u];
-          if ((old & 4) || ((old & 1) && (old & 2))){ yield_(k, 2); }
+          if ((old & 4) || ((old & 1) && (old & 2))){ myth_verif_spin(98); yield_(k, 2); }
           else if (old & 1){ if (__sync_bool_compare_and_swap(&ucw[u], old, old | 2)){ U("U_UcWaitCall", 2, (long)k, UCID(u)); myth_uncond_wait(&ucs[u]); U("U_UcWaitRet", 2, (long)k, UCID(u)); } }
           else if (__sync_bool_compare_and_swap(&ucw[u], old, ((long)o->b << 3) | 1 | ((old & 2) ? 4 : 0))){
             if (old & 2){ U("U_UcSignalCall", 2, (long)k, UCID(u)); myth_uncond_signal(&ucs[u]); U("U_UcSignalRet", 2, (long)k, UCID(u));
@@ -257,12 +258,12 @@ static int exec_op(int k, op_t *o, long *ret){
         break; }
     case OP_UCWAIT: /* mailbox get */
       { int u = o->a; for (;;){ long old = ucw[u];
-          if (old & 4){ yield_(k, 2); }
+          if (old & 4){ myth_verif_spin(98); yield_(k, 2); }
           else if (old & 1){ if (__sync_bool_compare_and_swap(&ucw[u], old, (old & 2) ? 4 : 0)){
               if (old & 2){ U("U_UcSignalCall", 2, (long)k, UCID(u)); myth_uncond_signal(&ucs[u]); U("U_UcSignalRet", 2, (long)k, UCID(u));
                             __sync_fetch_and_and(&ucw[u], ~4L); }
               consumed[u]++; break; } }
-          else if (old & 2){ yield_(k, 2); }                  /* empty and somebody already waits: one waiter per rendezvous */
+          else if (old & 2){ myth_verif_spin(98); yield_(k, 2); }   /* empty and somebody already waits: one waiter per rendezvous */
           else if (__sync_bool_compare_and_swap(&ucw[u], old, old | 2)){ U("U_UcWaitCall", 2, (long)k, UCID(u)); myth_uncond_wait(&ucs[u]); U("U_UcWaitRet", 2, (long)k, UCID(u)); } }
         break; }
     case OP_KCREATE: { int rc; myth_key_t kk = -1; /* a = slot, b = destructor id (0 none) */
@@ -278,7 +279,7 @@ static int exec_op(int k, op_t *o, long *ret){
     case OP_TESTCANCEL: /* poll until cancelled (never returns normally) */
       for (;;){
         U("U_TestCancelCall", 1, (long)k); myth_testcancel(); U("U_TestCancelRet", 1, (long)k);
-        yield_(k, myth_yield_option_local_first); }
+        myth_verif_spin(98); yield_(k, myth_yield_option_local_first); }
       break;
     case OP_SLEEP: { struct timespec rq; int rc; rq.tv_sec = o->a; rq.tv_nsec = o->b;   /* a = sec, b = nsec (possibly malformed) */
         if (o->c == 1){        /* usleep(b microseconds): the request as the caller means it */
@@ -303,7 +304,7 @@ static int exec_op(int k, op_t *o, long *ret){
           rc = myth_timedjoin(handle[o->a], &r, &dl);
           U("U_TimedJoinRet", 5, (long)k, (long)o->a, (long)rc, (long)(rc == 0 ? (long)r : 0), (long)(rc == 0 ? cell[o->a] : 0));
           if (rc == 0) break;
-          yield_(k, myth_yield_option_local_first);
+          myth_verif_spin(98); yield_(k, myth_yield_option_local_first);
         }
         self_of[o->a] = 0; break; }
     case OP_ONCE: U("U_OnceCall", 2, (long)k, ONID(o->a)); myth_once(&onces[o->a], o->a == 0 ? once_fn0 : o->a == 2 ? once_fn2 : once_fn1); U("U_OnceRet", 2, (long)k, ONID(o->a)); break;
